@@ -284,6 +284,41 @@ def batchnorm_harness(op, training, B):
     return hn
 
 
+def batchnorm_history_harness(seq):
+    """histories from the CONSTRUCTOR state ending in inverse(): offered (and returning) exactly when the layer is in evaluation mode, whatever
+    happened before - guards against hidden state that the one-step pre-states (parameters, buffers, mode) do not represent"""
+    D, B = 2, 3
+    ends_training = [s_ for s_ in seq if s_ in ("train", "eval", "train_forward")][-1] != "eval"
+
+    def play(t, x0, x):
+        for s_ in seq[:-1]:
+            if s_ == "train_forward": t.train(); t.forward(x0)
+            elif s_ == "eval_forward": t.eval(); t.forward(x0)
+            elif s_ == "eval": t.eval()
+            elif s_ == "train": t.train()
+        return t.inverse(x)
+
+    def run(h, ctx):
+        t = BatchNorm(D)
+        x0 = h.inp("x0", (B, D)); x = h.inp("x", (B, D))
+        h.t = t
+        return play(t, x0, x)
+
+    def post(h, ctx, value):
+        out, ld = value
+        ensure(h, ctx, "C14.batchnorm.inverse-shapes", z3.BoolVal(tuple(P(out).shape) == (B, D) and tuple(P(ld).shape) == (B,)))
+
+    def native_call(h, inp):
+        t = BatchNorm(D).double()
+        return play(t, torch.tensor(np.asarray(inp["x0"])), torch.tensor(np.asarray(inp["x"])))
+    hn = Harness(f"BatchNorm_history[{'>'.join(seq)}]", run, post, raises={InverseNotAvailable: lambda h, ctx: z3.BoolVal(ends_training)}, native_call=native_call,
+                 native_clauses=lambda h, inp, r: {"C14.batchnorm.inverse-shapes": tuple(r[0].shape) == (B, D)},
+                 native_raises={InverseNotAvailable: lambda h, inp: ends_training}, sample=lambda h, rng: {"x0": rng.normal(size=(B, D)), "x": rng.normal(size=(B, D))},
+                 functions=[BatchNorm.forward, BatchNorm.inverse, BatchNorm.__init__])
+    hn.native_float32 = False
+    return hn
+
+
 def norm_harnesses(tier):
     hs = []
     shapes = [(2, 2), (3, 1), (2, 2, 1, 2)] if tier == "quick" else [(2, 2), (3, 2), (4, 1), (2, 2, 1, 2), (2, 1, 2, 2), (3, 2, 1, 1)]
@@ -298,4 +333,7 @@ def norm_harnesses(tier):
         for training in (True, False):
             for B in ((2, 3) if op == "forward" else (2,)):
                 hs.append(batchnorm_harness(op, training, B))
+    for seq in (("train_forward", "inverse"), ("train_forward", "eval", "train", "inverse"), ("train_forward", "eval", "inverse"), ("eval_forward", "train", "inverse"),
+                ("train_forward", "train_forward", "inverse")):
+        hs.append(batchnorm_history_harness(seq))
     return hs
